@@ -95,6 +95,34 @@ impl Driven for D {
          _ => panic!("verif harness: unknown relation {}", rel),
       }
    }
+   fn clear(&mut self, rel: &str) {
+      match rel {
+         "sched" => { self.0.sched = Default::default(); },
+         "never" => { self.0.never = Default::default(); },
+         "step" => { self.0.step = Default::default(); },
+         "dom" => { self.0.dom = Default::default(); },
+         "kd" => { self.0.kd = Default::default(); },
+         "i000" => { self.0.i000 = Default::default(); },
+         "o000" => { self.0.o000 = Default::default(); },
+         "i100" => { self.0.i100 = Default::default(); },
+         "o100" => { self.0.o100 = Default::default(); },
+         "i010" => { self.0.i010 = Default::default(); },
+         "o010" => { self.0.o010 = Default::default(); },
+         "i001" => { self.0.i001 = Default::default(); },
+         "o001" => { self.0.o001 = Default::default(); },
+         "i110" => { self.0.i110 = Default::default(); },
+         "o110" => { self.0.o110 = Default::default(); },
+         "i101" => { self.0.i101 = Default::default(); },
+         "o101" => { self.0.o101 = Default::default(); },
+         "i011" => { self.0.i011 = Default::default(); },
+         "o011" => { self.0.o011 = Default::default(); },
+         "i111" => { self.0.i111 = Default::default(); },
+         "o111" => { self.0.o111 = Default::default(); },
+         "nr" => { self.0.nr = Default::default(); },
+         "cnt" => { self.0.cnt = Default::default(); },
+         _ => panic!("verif harness: unknown relation {}", rel),
+      }
+   }
    fn run(&mut self) { self.0.run(); }
    fn dump(&self) -> Value {
       let mut m: Vec<(String, Value)> = vec![];
